@@ -8,6 +8,7 @@
     print_program(ast) -> source text               # (so shrinkers can work on the AST)
     features(ast) -> {feature: count}
     shrink(ast, still_fails) -> smaller ast
+    listify(rng, ast, **LIST_WEIGHTS) -> ast      # (addition) turns a generated program into a LIST program
 
 The AST is JSON-able (dicts / lists / strings / ints / bools):
 
